@@ -394,12 +394,57 @@ def orbitframe_case(orientation, offcentre=False, home_name="EME2000"):
                      "parent -> frame -> parent is the identity for any state, and relative distances are preserved")
 
 
+def orbitframe_kepl_case():
+    """a frame attached to a state given in *keplerian* form (orientation of its own frame): the state, once expressed in
+    cartesian coordinates, sits at the origin of its frame, and parent -> frame -> parent is the identity"""
+    ins = [("a", "pos"), ("e", "pos"), ("i", "angle", {"lo": "0"}), ("Om", "angle", {"lo": "0"}), ("om", "angle", {"lo": "0"}),
+           ("nu", "angle", {"lo": "0"})] + [(k, "real") for k in XS]
+
+    def pre(v):
+        return [v["e"] < 1]
+
+    def run(env, v):
+        name = f"vfk{next(_cnt)}"
+        el = [v[k] for k in ("a", "e", "i", "Om", "om", "nu")]
+        if env.symbolic:
+            fr = env.mod("beyond.frames.frames")
+            for mname in ("beyond.utils.matrix", "beyond.frames.orient", "beyond.frames.center", "beyond.frames.local",
+                          "beyond.orbits.forms"):
+                env.mod(mname)
+            forms = importlib.import_module("beyond.orbits.forms")
+            ref_orb = carrier(el, date=SymDate(0), frame=fr.EME2000, form=forms.KEPL)
+            new = fr.orbit2frame(name, ref_orb, orientation=None)
+            cart = ref_orb.copy(form="cartesian")
+            own = cart.copy(frame=new)
+            probe = carrier([v[k] for k in XS], date=SymDate(0), frame=fr.EME2000, form=forms.CART)
+            back = probe.copy(frame=new).copy(frame=fr.EME2000)
+            return {"own_state_at_origin": list(own), "round_trip": [back[k] - probe[k] for k in range(6)]}
+        from beyond.frames import frames as fr
+        from beyond.orbits import StateVector
+        from beyond.dates import Date
+        d = Date(2020, 1, 1)
+        el = [7e6 * (1 + abs(float(v["a"])) % 3), min(float(v["e"]), 0.9)] + [float(x) for x in el[2:]]
+        ref_orb = StateVector(el, d, "keplerian", "EME2000")
+        new = fr.orbit2frame(name, ref_orb, orientation=None, exists_warning=False)
+        own = ref_orb.copy(form="cartesian").copy(frame=new)
+        sc = lambda xs: [xs[0] * 1e6 + 7e6, xs[1] * 1e6, xs[2] * 1e6, xs[3] * 1e3, xs[4] * 1e3 + 7.5e3, xs[5] * 1e3]
+        probe = StateVector(sc([v[k] for k in XS]), d, "cartesian", "EME2000")
+        back = probe.copy(frame=new).copy(frame="EME2000")
+        return {"own_state_at_origin": list(np.array(own) / 7e6), "round_trip": list((np.array(back) - np.array(probe)) / 7e6)}
+
+    def ref(env, v, out):
+        return {"own_state_at_origin": [0] * 6, "round_trip": [0] * 6}
+    return Case("orbit_frame/None/keplerian", ins, run, ref, pre=pre, timeout=120, tol=0, abs_tol=1e-7,
+                signature="orbit2frame: reference state not in cartesian form",
+                desc="a frame attached to a state given in keplerian form: the state sits at the origin of its own frame")
+
+
 def all_cases(tier):
     return [rot_case(1), rot_case(2), rot_case(3), kinematic_case("PEF_to_TOD"), kinematic_case("TIRF_to_CIRF"), gmst_rate_case(),
             rate_vector_case("beyond.frames.iau1980"), rate_vector_case("beyond.frames.iau2010"),
             orbitframe_case("QSW"), orbitframe_case("TNW"), orbitframe_case(None),
             orbitframe_case(None, True), orbitframe_case("QSW", True), orbitframe_case("QSW", False, "MOD"),
-            orbitframe_case("TNW", False, "MOD")] + c02m.cases(tier)
+            orbitframe_case("TNW", False, "MOD"), orbitframe_kepl_case()] + c02m.cases(tier)
 
 
 def groups(tier):
